@@ -15,6 +15,7 @@ import OpyVerif.Model.Onlooker
 import OpyVerif.Generated.ConstantsDefs
 import OpyVerif.Generated.SkeletonsDefs
 import OpyVerif.Generated.GuardsDefs
+import OpyVerif.Generated.FormulasDefs
 /-
 Line-protocol driver: runs the *executable model definitions* on inputs sent by the Python
 harness, one request per line, one answer per line.  Imports models only (no Mathlib), so it
@@ -227,6 +228,25 @@ def step (d : DState) (line : String) : DState × String :=
     | _, _ => (d, "bad-op")
   | ["b", name, xs] => match benchByName name, parseFloats xs with
     | some f, some xs => (d, showF (f xs)) | _, _ => (d, "bad-op")
+  -- the expressions translated from the current source, evaluated in Float
+  | ["fx", which, name, envs, xs] =>
+    let e? : Option FExpr := match which with
+      | "bench" => Opy.Gen.benchExprs.lookup name
+      | "sched" => Opy.Gen.scheduleExprs.lookup name
+      | "span" => some Opy.Gen.spanExpr
+      | "norm" => some Opy.Gen.normExpr
+      | "levy" => some Opy.Gen.levyExpr
+      | "wbody" => some Opy.Gen.weightedBody
+      | _ => none
+    let env? : Option (List (String × Float)) :=
+      if envs == "-" then some [] else (envs.splitOn ",").mapM fun kv => match kv.splitOn "=" with
+        | [k, v] => (fOfBits v).map (fun f => (k, f)) | _ => none
+    match e?, env?, parseFloats xs with
+    | some e, some env, some xs =>
+      if !e.known then (d, "unknown") else
+      (d, match e.denote (fun n => (env.lookup n).getD (0.0 / 0.0)) xs with
+          | .s v => showF v | .v l => "v " ++ showFs l | .bad => "bad")
+    | _, _, _ => (d, "bad-op")
   -- history
   | ["h.new", sbo] => ({ d with hist := { storeBestOnly := sbo == "1", attrs := [] } }, "ok")
   | "h.dump" :: kvs =>
